@@ -118,60 +118,74 @@ func VerifC08_CmplxsNearestIdx() {
 }
 
 // VerifC08_CmplxsPredicates: HasNaN, Equal, Same, EqualFunc, EqualLengths,
-// Count, Find, Abs against their definitions.
+// Count, Find, Abs against their definitions (one function per case split).
 func VerifC08_CmplxsPredicates() {
 	n := verifChoose("n", 0, verifParam("maxn", 3))
+	fn := verifChoose("fn", 0, 7)
 	s, t := verifComplexes("s", n), verifComplexes("t", n)
 	s0, t0 := verifC08copy(s), verifC08copy(t)
-	hasNaN, equal, same := false, true, true
-	for i := 0; i < n; i++ {
-		hasNaN = verifOr(hasNaN, verifC08isNaN(s[i]))
-		eq := verifAnd(real(s[i]) == real(t[i]), imag(s[i]) == imag(t[i]))
-		equal = verifAnd(equal, eq)
-		same = verifAnd(same, verifOr(eq, verifAnd(verifC08isNaN(s[i]), verifC08isNaN(t[i]))))
-	}
-	verifAssert(HasNaN(s) == hasNaN, "HasNaN: some element is a cmplx NaN")
-	verifAssert(Equal(s, t) == equal, "Equal: same length and every pair ==")
-	verifAssert(Same(s, t) == same, "Same: every pair == or both NaN")
-	verifAssert(!Equal(s, append(verifC08copy(t), 0)) && !Same(s, append(verifC08copy(t), 0)), "different lengths: false")
 	thr := verifFloat("thr")
 	pred := func(z complex128) bool { return real(z) > thr }
-	cnt := 0
-	for i := 0; i < n; i++ {
-		cnt += verifIteInt(real(s[i]) > thr, 1, 0)
-	}
-	verifAssert(Count(pred, s) == cnt, "Count: number of elements satisfying f")
-	verifAssert(EqualFunc(s, t, func(a, b complex128) bool { return real(a) > real(b) }) == func() bool {
+	switch fn {
+	case 0:
+		hasNaN := false
+		for i := 0; i < n; i++ {
+			hasNaN = verifOr(hasNaN, verifC08isNaN(s[i]))
+		}
+		verifAssert(HasNaN(s) == hasNaN, "HasNaN: some element is a cmplx NaN")
+	case 1, 2:
+		equal, same := true, true
+		for i := 0; i < n; i++ {
+			eq := verifAnd(real(s[i]) == real(t[i]), imag(s[i]) == imag(t[i]))
+			equal = verifAnd(equal, eq)
+			same = verifAnd(same, verifOr(eq, verifAnd(verifC08isNaN(s[i]), verifC08isNaN(t[i]))))
+		}
+		if fn == 1 {
+			verifAssert(Equal(s, t) == equal, "Equal: same length and every pair ==")
+			verifAssert(!Equal(s, append(verifC08copy(t), 0)), "Equal: different lengths: false")
+		} else {
+			verifAssert(Same(s, t) == same, "Same: every pair == or both NaN")
+			verifAssert(!Same(s, append(verifC08copy(t), 0)), "Same: different lengths: false")
+		}
+	case 3:
+		cnt := 0
+		for i := 0; i < n; i++ {
+			cnt += verifIteInt(real(s[i]) > thr, 1, 0)
+		}
+		verifAssert(Count(pred, s) == cnt, "Count: number of elements satisfying f")
+	case 4:
 		all := true
 		for i := 0; i < n; i++ {
 			all = verifAnd(all, real(s[i]) > real(t[i]))
 		}
-		return all
-	}(), "EqualFunc: every pair satisfies f")
-	verifAssert(EqualLengths(s, t) && EqualLengths() && EqualLengths(s) && (n == 2 || !EqualLengths(s, t, make([]complex128, 2))), "EqualLengths")
-	// Find: k < 0 all, k = 0 none, k > 0 the first k or an error
-	k := verifChoose("k", -1, 2)
-	inds, err := Find(make([]int, 1, 4), pred, s, k)
-	want := 0
-	for i := 0; i < n; i++ {
-		hit := real(s[i]) > thr
-		if hit && (k < 0 || want < k) {
-			verifAssert(want < len(inds) && inds[want] == i, "Find: indices of the matching elements in order")
-			want++
+		verifAssert(EqualFunc(s, t, func(a, b complex128) bool { return real(a) > real(b) }) == all, "EqualFunc: every pair satisfies f")
+		verifAssert(!EqualFunc(s, append(verifC08copy(t), 0), func(a, b complex128) bool { return true }), "EqualFunc: different lengths: false")
+	case 5:
+		verifAssert(EqualLengths(s, t) && EqualLengths() && EqualLengths(s) && (n == 2 || !EqualLengths(s, t, make([]complex128, 2))), "EqualLengths")
+	case 6:
+		// Find: k < 0 all, k = 0 none, k > 0 the first k or an error
+		k := verifChoose("k", -1, 2)
+		inds, err := Find(make([]int, 1, 4), pred, s, k)
+		want := 0
+		for i := 0; i < n; i++ {
+			hit := real(s[i]) > thr
+			if hit && (k < 0 || want < k) {
+				verifAssert(want < len(inds) && inds[want] == i, "Find: indices of the matching elements in order")
+				want++
+			}
 		}
-	}
-	if err == nil {
 		verifAssert(len(inds) == want, "Find: nothing else returned")
+		verifAssert((err != nil) == (k > 0 && want < k), "Find: error iff fewer than k elements match")
+	case 7:
+		dst := make([]float64, n)
+		Abs(dst, s)
+		for i := 0; i < n; i++ {
+			a := cmplx.Abs(s[i])
+			verifAssert(verifOr(verifSame(dst[i], a), verifAnd(dst[i] != dst[i], a != a)), "Abs: dst[i] = |s[i]|")
+		}
+		p, _, _ := verifCatch(func() { Abs(make([]float64, n+1), s) })
+		verifAssert(p, "Abs: length mismatch panics")
 	}
-	verifAssert((err != nil) == (k > 0 && want < k), "Find: error iff fewer than k elements match")
-	dst := make([]float64, n)
-	Abs(dst, s)
-	for i := 0; i < n; i++ {
-		a := cmplx.Abs(s[i])
-		verifAssert(verifOr(verifSame(dst[i], a), verifAnd(dst[i] != dst[i], a != a)), "Abs: dst[i] = |s[i]|")
-	}
-	p, _, _ := verifCatch(func() { Abs(make([]float64, n+1), s) })
-	verifAssert(p, "Abs: length mismatch panics")
 	verifC08unchanged(s, s0, "s untouched")
 	verifC08unchanged(t, t0, "t untouched")
 	verifReach("end")
